@@ -2,6 +2,7 @@ import Frp.Model.Group
 import Frp.Lemmas.Group
 import Frp.Lemmas.GroupConn
 import Frp.Lemmas.GroupAcct
+import Frp.Gen.GroupFacts
 /-
   C13 — Load-balancing groups: keyed membership, live members only, clean lifecycle.
 
@@ -59,6 +60,25 @@ def pendHolds (o : Obj) (live accepting : List Str) : Fate → Bool
   | .to m => o.members.contains m && live.contains m
   | .closed => !(o.members.any live.contains)
   | .waiting => o.members.any live.contains && !(o.members.any accepting.contains)
+
+
+/-- port accounting on one dump of the real ports.Manager: every port it holds as used belongs to a group
+    object that has members (`repaired_used_iff_populated`: nothing else is used in the model) — a port still
+    accounted after its group dissolved is an endpoint that has outlived its members -/
+def usedHolds (s : St) (implUsed : List Nat) : Bool :=
+  implUsed.all (fun p => s.objs.any (fun o => !o.members.isEmpty && o.realPort == p))
+
+/-- the same for the routes of the real vhost.Routers (http): each is somebody else's or a populated group's -/
+def routesHolds (s : St) (implRoutes : List EpKey) : Bool :=
+  implRoutes.all (fun k => s.ext.contains k || s.objs.any (fun o => !o.members.isEmpty && o.ep == k))
+
+/-- "can be created again immediately": a join that CREATES the group (meets no populated object) on an
+    endpoint which a now dissolved group object has held, and which is free by the model's books
+    (`modelOk`: not squatted, allowed, not used by a live group), must be accepted -/
+def recreateHolds (s : St) (g : Str) (p : Params) (modelOk implOk : Bool) : Bool :=
+  !((metObj s g).isNone && modelOk && !implOk &&
+    s.objs.any (fun o => o.members.isEmpty && !o.lnOpen && o.params.kind == p.kind && o.ep == routeKey p &&
+                         !(o.name == [] && o.key == [] && o.realPort == 0 && o.ep == .port 0)))
 
 /-! ## 1. Keyed membership (one join step; holds in every state, hence under every interleaving) -/
 
@@ -277,12 +297,12 @@ worker accepts, hand-offs, requests and outside interference, of any length. -/
 
 theorem repaired_inv (k : Kind) (allow : List Nat) (ls : List Label) (s : St)
     (h : run repaired (init k allow) ls = some s) : GInv s :=
-  inv_run (fx := repaired) rfl ls (inv_init k allow) h
+  inv_run (fx := repaired) rfl rfl ls (inv_init k allow) h
 
 /-- also with only the race repair applied (ports / hand-off repairs are independent) -/
 theorem oneLock_inv (a c : Bool) (k : Kind) (allow : List Nat) (ls : List Label) (s : St)
-    (h : run ⟨a, true, c⟩ (init k allow) ls = some s) : GInv s :=
-  inv_run (fx := ⟨a, true, c⟩) rfl ls (inv_init k allow) h
+    (h : run ⟨a, true, c, true⟩ (init k allow) ls = some s) : GInv s :=
+  inv_run (fx := ⟨a, true, c, true⟩) rfl rfl ls (inv_init k allow) h
 
 /-- **no ordering of joins and leaves brings the server down** -/
 theorem repaired_no_panic (k : Kind) (allow : List Nat) : NoPanic repaired (init k allow) :=
@@ -542,6 +562,219 @@ example : (run repaired (w0 .tcp)
     (fun s => (s.dropped, s.inflight, strandedConns s)) = some ([8, 7], [], []) ∧
     run repaired (w0 .tcp) [.lookup wm1 wg, .enter wm1 wk wTcp {}, .accept 7 0, .send 7] = none := by decide
 
+/-! ### the leave's two sections (group edit | table delete)
+
+`leaveEdit` and `leaveDel` are scheduled as labels of their own: every label sequence of the theorems
+above and below may contain them in any position.  The code keeps the controller lock across both
+(`code_leave_one_section`, regenerated from the source), so between the two sections of a last leave the
+table still names the dead object, but nobody can read the table. -/
+
+/-- **between the sections of a last leave nothing of another join or leave can run**: that leave
+    holds the controller lock, no join is between lookup and enter, and every label that needs the
+    controller lock is disabled (what stays enabled: the second section, and the labels that do not
+    touch the table — arrivals, hand-offs, requests, outside interference) -/
+theorem repaired_sections_exclusive (k : Kind) (allow : List Nat) (ls : List Label) (s : St)
+    (h : run repaired (init k allow) ls = some s) (hp : s.pdel ≠ []) :
+    ∃ m gid g, s.pdel = [(m, gid, g)] ∧ s.lock = some m ∧ s.pend = [] ∧
+      (∀ m' g', step repaired s (.lookup m' g') = none) ∧
+      (∀ m' key p orc, step repaired s (.enter m' key p orc) = none) ∧
+      (∀ m' j, step repaired s (.leaveL m' j) = none) ∧
+      (∀ m' g', step repaired s (.leaveG m' g') = none) ∧
+      (∀ m' j, step repaired s (.leaveEdit m' j) = none) := by
+  have hi := repaired_inv k allow ls s h
+  cases hl : s.lock with
+  | none => exact absurd (hi.lockNone hl).2 hp
+  | some mm =>
+    rcases hi.lockSome mm hl with ⟨_, _, _, _, hpd⟩ | ⟨hpend, gid, g, hpd⟩
+    · exact absurd hpd hp
+    · refine ⟨mm, gid, g, hpd, rfl, hpend, ?_, ?_, ?_, ?_, ?_⟩
+      · intro m' g'; simp [step, lockFree, repaired, hl]
+      · intro m' key p orc; simp [step, hpend]
+      · intro m' j; simp [step, lockFree, repaired, hl]
+      · intro m' g'; simp [step, lockFree, repaired, hl]
+      · intro m' j; simp [step, lockFree, repaired, hl]
+
+/-- **table ↔ members, under every interleaving of joins, leaves and their sections**:
+    (→) a group object that has members is the object the controller finds under its name, with a
+    live hand-off channel; (←) whatever the table names exists and is usable (channel not closed),
+    the only exception being the object whose last member is between its two sections — it is empty,
+    and that leave holds the controller lock until the entry is gone. -/
+theorem repaired_table_members_consistent (k : Kind) (allow : List Nat) (ls : List Label) (s : St)
+    (h : run repaired (init k allow) ls = some s) :
+    (∀ gid o, s.objs[gid]? = some o → o.members ≠ [] →
+        s.table.lookup o.name = some gid ∧ o.chClosed = false) ∧
+    (∀ g gid, s.table.lookup g = some gid → ∃ o, s.objs[gid]? = some o ∧
+        (o.chClosed = false ∨ (∃ m, s.lock = some m ∧ s.pdel = [(m, gid, g)] ∧ o.members = []))) := by
+  have hi := repaired_inv k allow ls s h
+  refine ⟨fun gid o ho hm => ⟨(hi.pop gid o ho hm).2, (hi.pop gid o ho hm).1⟩, ?_⟩
+  intro g gid ht
+  obtain ⟨o, ho, hoc⟩ := hi.tab g gid ht
+  refine ⟨o, ho, ?_⟩
+  rcases hoc with e | ⟨m, hm⟩
+  · exact Or.inl e
+  · right
+    obtain ⟨_, o', ho', hom, _⟩ := hi.pdelOk m gid g hm
+    rw [ho] at ho'; cases ho'
+    cases hl : s.lock with
+    | none => rw [(hi.lockNone hl).2] at hm; cases hm
+    | some mm =>
+      rcases hi.lockSome mm hl with ⟨_, _, _, _, hpd⟩ | ⟨_, gid1, g1, hpd⟩
+      · rw [hpd] at hm; cases hm
+      · rw [hpd] at hm
+        simp only [List.mem_singleton, Prod.mk.injEq] at hm
+        obtain ⟨rfl, rfl, rfl⟩ := hm
+        exact ⟨m, rfl, hpd, hom⟩
+
+/-- the second section always finds the entry it came to delete: the identity test
+    `ctl.groups[name] == g` of a careful implementation can never fail in the one-section code -/
+theorem repaired_second_section_finds_entry (k : Kind) (allow : List Nat) (ls : List Label) (s : St)
+    (h : run repaired (init k allow) ls = some s) (m : Str) (gid : Nat) (g : Str)
+    (hm : (m, gid, g) ∈ s.pdel) : s.table.lookup g = some gid :=
+  ((repaired_inv k allow ls s h).pdelOk m gid g hm).1
+
+/-- **the big-step leave of tcp / tcpmux groups IS its two sections run back to back** (every reachable
+    state): a leave that is not the last is the first section alone; the last leave is `leaveEdit`
+    followed by `leaveDel`, with exactly the same resulting state. -/
+theorem leaveL_eq_sections (k : Kind) (allow : List Nat) (ls : List Label) (s s' : St)
+    (h : run repaired (init k allow) ls = some s) (m : Str) (gid : Nat) (r : Res)
+    (hs : step repaired s (.leaveL m gid) = some (s', r)) :
+    r = .none ∧
+    (((s.obj gid).members.erase m ≠ [] ∧ step repaired s (.leaveEdit m gid) = some (s', .none)) ∨
+     ((s.obj gid).members.erase m = [] ∧ ∃ s1, step repaired s (.leaveEdit m gid) = some (s1, .none) ∧
+        s1.pdel = [(m, gid, (s.obj gid).name)] ∧ step repaired s1 (.leaveDel m) = some (s', .none))) := by
+  have hi := repaired_inv k allow ls s h
+  simp only [step] at hs
+  split at hs
+  · cases hs
+  · rename_i hcond
+    have hlock : s.lock = none := lock_none_of (fx := repaired) rfl (fun e => hcond (Or.inr (Or.inr e)))
+    have hkind : s.kind ≠ .http := fun e => hcond (Or.inr (Or.inl e))
+    have hpan : s.panicked = false := hi.noPanic
+    obtain ⟨_, hpd⟩ := hi.lockNone hlock
+    split at hs
+    · cases hs
+    · rename_i hmem
+      have hmem' : m ∈ (s.obj gid).members := by simpa using hmem
+      have hne : (s.obj gid).members ≠ [] := by intro e; rw [e] at hmem'; cases hmem'
+      obtain ⟨hcc, hlk⟩ := hi.pop _ _ (get_of_members hne) hne
+      split at hs
+      · rename_i hms
+        cases hs
+        refine ⟨rfl, Or.inl ⟨hms, ?_⟩⟩
+        simp [step, lockFree, repaired, hlock, hpan, hpd, hmem', hms]
+      · rename_i hms
+        have hms' : (s.obj gid).members.erase m = [] := Decidable.not_not.mp hms
+        split at hs
+        · rename_i hc; rw [hcc] at hc; cases hc
+        · cases hs
+          refine ⟨rfl, Or.inr ⟨hms', { s.setObj gid { s.obj gid with members := [], chClosed := true, lnOpen := false } with
+              pdel := [(m, gid, (s.obj gid).name)], lock := some m }, ?_, rfl, ?_⟩⟩
+          · simp [step, lockFree, repaired, hlock, hpan, hpd, hmem', hms', hcc, hkind]
+          · simp [step, repaired, hpan, hlk, St.setObj, hlock, hpd]
+
+/-- the same for http groups (`UnRegister(m, g)` of a member of the group stored under `g`) -/
+theorem leaveG_eq_sections (k : Kind) (allow : List Nat) (ls : List Label) (s s' : St)
+    (h : run repaired (init k allow) ls = some s) (m g : Str) (gid : Nat) (r : Res)
+    (ht : s.table.lookup g = some gid) (hmem : m ∈ (s.obj gid).members)
+    (hs : step repaired s (.leaveG m g) = some (s', r)) :
+    r = .none ∧
+    (((s.obj gid).members.erase m ≠ [] ∧ step repaired s (.leaveEdit m gid) = some (s', .none)) ∨
+     ((s.obj gid).members.erase m = [] ∧ ∃ s1, step repaired s (.leaveEdit m gid) = some (s1, .none) ∧
+        s1.pdel = [(m, gid, g)] ∧ step repaired s1 (.leaveDel m) = some (s', .none))) := by
+  have hi := repaired_inv k allow ls s h
+  simp only [step] at hs
+  split at hs
+  · cases hs
+  · rename_i hcond
+    have hlock : s.lock = none := lock_none_of (fx := repaired) rfl (fun e => hcond (Or.inr (Or.inr e)))
+    have hkind : s.kind = .http := by
+      false_or_by_contra; rename_i hne; exact hcond (Or.inr (Or.inl hne))
+    have hpan : s.panicked = false := hi.noPanic
+    obtain ⟨_, hpd⟩ := hi.lockNone hlock
+    have hne : (s.obj gid).members ≠ [] := by intro e; rw [e] at hmem; cases hmem
+    obtain ⟨hcc, hlk⟩ := hi.pop _ _ (get_of_members hne) hne
+    have hname : (s.obj gid).name = g := hi.tabInj _ _ _ hlk ht
+    simp only [ht] at hs
+    split at hs
+    · rename_i hms
+      cases hs
+      refine ⟨rfl, Or.inl ⟨hms, ?_⟩⟩
+      simp [step, lockFree, repaired, hlock, hpan, hpd, hmem, hms]
+    · rename_i hms
+      have hms' : (s.obj gid).members.erase m = [] := Decidable.not_not.mp hms
+      cases hs
+      refine ⟨rfl, Or.inr ⟨hms', { s.setObj gid { s.obj gid with members := [], lnOpen := false } with
+          pdel := [(m, gid, g)], lock := some m }, ?_, rfl, ?_⟩⟩
+      · simp [step, lockFree, repaired, hlock, hpan, hpd, hmem, hms', hkind, hname]
+      · simp [step, repaired, hpan, ht, St.setObj, hlock, hpd]
+
+/-! #### what the one critical section is for: the same controllers with a leave that gives the lock up -/
+
+/-- everything repaired, but the leave releases the controller lock between its two sections and takes it
+    again for the second (with the identity test) -/
+def splitLeave : Fix := { repaired with leaveOne := false }
+
+/-- `join(m1) · lookup(m2,g) · leaveEdit(m1) · enter(m2) · leaveDel(m1)`: the join — which holds the controller
+    lock from lookup to enter, as it should — finds the emptied object still in the table and re-populates it;
+    then the leave's second section removes the entry (same object: the identity test passes) -/
+def raceSplit (p : Params) : List Label :=
+  [.lookup wm1 wg, .enter wm1 wk p {}, .lookup wm2 wg, .leaveEdit wm1 0, .enter wm2 wk p {}, .leaveDel wm1]
+
+/-- **http, split leave:** a live group with a live route that the controller no longer knows; every later
+    correct join of that group is refused with a route conflict; the orphan's member can never be removed
+    (`UnRegister` finds no group) and the route stays; table ↔ members consistency is broken. -/
+theorem split_leave_witness_http :
+    (run splitLeave (w0 .http) (raceSplit wHttp)).map
+      (fun s => (s.table, (s.obj 0).members, (s.obj 0).lnOpen, s.busy (routeKey wHttp), s.panicked)) =
+      some ([], [wm2], true, true, false) ∧
+    ((run splitLeave (w0 .http) (raceSplit wHttp)).bind
+      (fun s => (step splitLeave s (.lookup wm3 wg)).bind
+        (fun x => (step splitLeave x.1 (.enter wm3 wk wHttp {})).map (·.2)))) = some (.err .conflict) ∧
+    ((run splitLeave (w0 .http) (raceSplit wHttp ++ [.leaveG wm2 wg])).map
+      (fun s => ((s.obj 0).members, s.busy (routeKey wHttp)))) = some ([wm2], true) ∧
+    run repaired (w0 .http) ((raceSplit wHttp).take 4) = none := by decide
+
+/-- **tcp / tcpmux, split leave:** the revived object's channel is closed; its next last leave closes it
+    again and frps dies -/
+theorem split_leave_witness_tcp :
+    (run splitLeave (w0 .tcp) (raceSplit wTcp ++ [.leaveEdit wm2 0])).map (·.panicked) = some true ∧
+    (run splitLeave (w0 .mux) (raceSplit wMux ++ [.leaveEdit wm2 0])).map (·.panicked) = some true ∧
+    run repaired (w0 .tcp) ((raceSplit wTcp).take 4) = none := by decide
+
+/-! #### the tie of the lock discipline to the source (regenerated by translate/gen_groupfacts.go) -/
+
+open Gen.GroupFacts GroupSections in
+/-- **join = one critical section**: in all three controllers the table lookup / insertion and the group's
+    join run under the controller lock, which is not released in between — the model's `oneLock` -/
+theorem code_join_one_section :
+    (oneSection tcpJoin && oneSection httpJoin && oneSection muxJoin) = current.oneLock := by decide +kernel
+
+open Gen.GroupFacts GroupSections in
+/-- **leave = one critical section**: CloseListener / UnRegister hold the controller lock from before the
+    group edit until after the table delete — the model's `leaveOne` -/
+theorem code_leave_one_section :
+    (oneSection tcpLeave && oneSection httpLeave && oneSection muxLeave &&
+     deletes tcpLeave && deletes httpLeave && deletes muxLeave) = current.leaveOne := by decide +kernel
+
+open Gen.GroupFacts GroupSections in
+/-- **lock order controller → group** on every join and leave path (no join × leave deadlock), and the group
+    object changes only under its own lock -/
+theorem code_lock_order :
+    ([tcpJoin, tcpLeave, httpJoin, httpLeave, muxJoin, muxLeave].all
+      (fun e => orderOk e && editsUnderGroupLock e)) = true := by decide +kernel
+
+open Gen.GroupFacts GroupSections in
+/-- the tcp group gives back the port the manager handed out (`realPort`), on teardown and on a failed listen -/
+theorem code_release_real_port :
+    (releases tcpLeave == ["realPort"] && releases tcpJoin == ["realPort"]) = current.listenReal := by
+  decide +kernel
+
+open Gen.GroupFacts GroupSections in
+/-- the gates at which the engine parks a join lie between the table lookup and the group's own section -/
+theorem code_gates :
+    (gateBetween tcpJoin "tcpgroup.listen.lookedup" && gateBetween httpJoin "httpgroup.register.lookedup" &&
+     gateBetween muxJoin "tcpmuxgroup.listen.lookedup") = true := by decide +kernel
+
 /-! ### ports: what `TCPGroup.Listen` reports is what it listens on, and nothing leaks -/
 
 theorem acquire_some (s : St) (port : Nat) (orc : Oracle) (rp : Nat)
@@ -592,6 +825,95 @@ theorem truthful_partial (s s1 : St) (a : Str) (port : Nat) (hp : port ≠ 0) (o
     split at h
     · cases h
     · cases h; exact ⟨by rw [he], he⟩
+
+theorem createEp_leaked {fx : Fix} (hf : fx.listenReal = true) {s s1 : St} {p : Params} {orc : Oracle}
+    {res : Except Err (Nat × EpKey)} (h : createEp fx s p orc = some (s1, res)) : s1.leaked = s.leaked := by
+  cases p with
+  | tcp a port => exact (createEp_repaired_truthful fx hf _ _ a port orc _ h).1
+  | http d l u => simp only [createEp] at h; split at h <;> (cases h; rfl)
+  | mux d u n w => simp only [createEp] at h; split at h <;> (cases h; rfl)
+
+theorem enter_leaked {fx : Fix} (hf : fx.listenReal = true) {s s' : St} {m g key : Str} {p : Params}
+    {orc : Oracle} {gid : Nat} {r : Res} (hs : enter fx s m g key p orc gid = some (s', r)) :
+    s'.leaked = s.leaked := by
+  unfold enter at hs
+  simp only at hs
+  split at hs
+  · split at hs
+    · cases hs
+    · rename_i hce; cases hs; exact createEp_leaked hf hce
+    · rename_i hce; cases hs
+      have := createEp_leaked hf hce
+      simpa [St.setObj] using this
+  · split at hs
+    · cases hs; rfl
+    · split at hs <;> (cases hs; rfl)
+
+/-- no label adds a leaked port once `TCPGroup.Listen` releases the acquired port when net.Listen fails -/
+theorem step_leaked {fx : Fix} (hf : fx.listenReal = true) {s s' : St} {l : Label} {r : Res}
+    (hs : step fx s l = some (s', r)) : s'.leaked = s.leaked := by
+  cases l with
+  | enter m key p orc =>
+    simp only [step] at hs
+    split at hs
+    · cases hs
+    · split at hs
+      · cases hs
+      · exact enter_leaked (s := { s with pend := s.pend.filter (fun x => !(x.1 == m)), lock := if fx.oneLock then none else s.lock }) hf hs
+  | lookup m g => simp only [step] at hs; (repeat' split at hs) <;> (cases hs; try rfl)
+  | leaveL m gid => simp only [step] at hs; (repeat' split at hs) <;> (cases hs; try rfl)
+  | leaveG m g => simp only [step] at hs; (repeat' split at hs) <;> (cases hs; try rfl)
+  | leaveEdit m gid => simp only [step] at hs; (repeat' split at hs) <;> (cases hs; try rfl)
+  | leaveDel m => simp only [step] at hs; (repeat' split at hs) <;> (cases hs; try rfl)
+  | accept c gid => simp only [step] at hs; (repeat' split at hs) <;> (cases hs; try rfl)
+  | handoff c m => simp only [step] at hs; (repeat' split at hs) <;> (cases hs; try rfl)
+  | send c => simp only [step] at hs; (repeat' split at hs) <;> (cases hs; try rfl)
+  | recv m gid => simp only [step] at hs; (repeat' split at hs) <;> (cases hs; try rfl)
+  | request gid => simp only [step] at hs; (repeat' split at hs) <;> (cases hs; try rfl)
+  | squat k => simp only [step] at hs; (repeat' split at hs) <;> (cases hs; try rfl)
+  | unsquat k => simp only [step] at hs; (repeat' split at hs) <;> (cases hs; try rfl)
+
+/-- **no port is ever leaked**, whatever the interleaving -/
+theorem repaired_no_leak (ls : List Label) :
+    ∀ (s0 s : St), s0.leaked = [] → run repaired s0 ls = some s → s.leaked = [] := by
+  induction ls with
+  | nil => intro s0 s h0 h; simp [run] at h; subst h; exact h0
+  | cons l ls ih =>
+    intro s0 s h0 h
+    simp only [run] at h
+    split at h
+    · cases h
+    · rename_i s1 r hstep
+      exact ih s1 s (by rw [step_leaked (fx := repaired) rfl hstep]; exact h0) h
+
+/-- **a port is accounted as used exactly as long as a group with members listens on it**: in every
+    reachable state the manager's used set (as far as groups are concerned) is the set of `realPort`s of
+    the populated group objects — so after the last leave the REAL port (also a server-chosen one) is free
+    and can be acquired again explicitly. -/
+theorem repaired_used_iff_populated (k : Kind) (allow : List Nat) (ls : List Label) (s : St)
+    (h : run repaired (init k allow) ls = some s) (p : Nat) :
+    s.usedPort p = true ↔ ∃ (gid : Nat) (o : Obj), s.objs[gid]? = some o ∧ o.members ≠ [] ∧ o.realPort = p := by
+  have hi := repaired_inv k allow ls s h
+  have hl : s.leaked = [] := repaired_no_leak ls (init k allow) s rfl h
+  simp only [St.usedPort, hl, List.contains_nil, Bool.false_or, List.any_eq_true, Bool.and_eq_true,
+    beq_iff_eq]
+  constructor
+  · rintro ⟨o, ho, hopen, hp⟩
+    obtain ⟨gid, hlt, hg⟩ := List.mem_iff_getElem.1 ho
+    have hget : s.objs[gid]? = some o := by rw [List.getElem?_eq_getElem hlt, hg]
+    exact ⟨gid, o, hget, (hi.openIff gid o hget).1 hopen, hp⟩
+  · rintro ⟨gid, o, hget, hm, hp⟩
+    exact ⟨o, List.mem_of_getElem? hget, (hi.openIff gid o hget).2 hm, hp⟩
+
+/-- the driver's port predicate is what the theorem says: on the model's own state it holds -/
+theorem usedHolds_sound (k : Kind) (allow : List Nat) (ls : List Label) (s : St)
+    (h : run repaired (init k allow) ls = some s) (used : List Nat)
+    (hu : ∀ p, p ∈ used → s.usedPort p = true) : usedHolds s used = true := by
+  simp only [usedHolds, List.all_eq_true, List.any_eq_true, Bool.and_eq_true, Bool.not_eq_eq_eq_not,
+    Bool.not_true, List.isEmpty_eq_false_iff, beq_iff_eq]
+  intro p hp
+  obtain ⟨gid, o, hget, hm, hrp⟩ := (repaired_used_iff_populated k allow ls s h p).1 (hu p hp)
+  exact ⟨o, List.mem_of_getElem? hget, hm, hrp⟩
 
 /-! ### non-vacuity: the repaired model does run, joins, delivers and re-creates -/
 
